@@ -1,6 +1,7 @@
 """C10 - mutations are never split across messages; size guarantees of the packing loop.
 Layer 0 part: Mutations::send packing through the verif hook vs RV.Pack.Packing."""
 import random
+import sys
 from common import *
 
 
@@ -214,7 +215,55 @@ def run(tier, seed, replay):
     kws = [dict(max_size=1, burst=0.1), dict(max_size=1, rel=True, burst=0.08, weights=dict(drop=1.5, sop=7.0)), dict(max_size=30, rel=True, weights=dict(drop=1.5)), dict(max_size=60, track=True, rel=True),
            dict(max_size=1, nclients=2, track=True), dict(max_size=1, rel=True, policy="black", nclients=2),
            dict(max_size=1, rel=True, rel_heavy=True, burst=0.15, length=90), dict(max_size=1, rel=True, rel_heavy=True, burst=0.15, length=60, nclients=2)]
-    o2, d2 = simcheck.sim_collect(rep, "C10", tier, rng, seed, kws, 160, 16000, oracle_props={"C10", "C02"},
+    def group_scripts(rng, tier):
+        """small worlds with a few relationship edges; between the ticks in which related entities are mutated together, operations
+        that must not change the groups: the marker inserted again, unrelated entities spawned / despawned, a relation replaced
+        by itself, visibility of unrelated entities"""
+        sys.path.insert(0, os.path.join(VERIF, "gen"))
+        import scripts as gen_scripts
+        out = []
+        for i in range(30 if tier == "quick" else 1200):
+            ncl = rng.choice([1, 2])
+            lines = ["cfg policy=all auth=none track=%d nclients=%d timeout=10000 rel=1" % (rng.randrange(2), ncl), "start", "sframe 0 10"]
+            for c in range(ncl):
+                lines.append("connect %d 1" % c)
+            n = rng.randrange(3, 6)
+            for e in range(1, n + 1):
+                lines.append("sop spawn %d 1 0=%d 1=%d" % (e, rng.randrange(50), rng.randrange(50)))
+            edges = {}
+            for e in range(2, n + 1):
+                if rng.random() < 0.7:
+                    edges[e] = rng.randrange(1, e)
+                    lines.append("sop rel %d %d" % (e, edges[e]))
+            lines.append("sframe 1 16")
+            for c in range(ncl):
+                lines += ["deliver %d s2c 0 all" % c, "cframe %d" % c, "deliver %d c2s 0 all" % c]
+            nxt = n + 1
+            for _ in range(rng.randrange(2, 5)):
+                k = rng.random()
+                if k < 0.35:
+                    lines.append("sop remark %d" % rng.randrange(1, n + 1))
+                elif k < 0.5:
+                    lines.append("sop spawn %d 1 0=1" % nxt)
+                    nxt += 1
+                elif k < 0.65 and edges:
+                    e = rng.choice(sorted(edges))
+                    lines.append("sop rel %d %d" % (e, edges[e]))       # replaced by itself
+                if rng.random() < 0.4:
+                    lines.append("sframe %d 16" % rng.randrange(2))
+                for e in range(1, n + 1):
+                    if rng.random() < 0.8:
+                        lines.append("sop mutate %d %d=%d" % (e, rng.randrange(2), rng.randrange(100, 200)))
+                lines.append("sframe 1 16")
+                for c in range(ncl):
+                    lines.append("%s %d s2c 1 %s" % (rng.choice(["deliver", "drop"]), c, rng.choice(["first", "last"])))
+                    lines += ["cframe %d" % c, "deliver %d c2s 0 all" % c]
+            meta = dict(connected=list(range(ncl)), events=False)
+            sf = len(lines)
+            lines += gen_scripts.settle_lines(meta)
+            out.append(("groups-%d" % i, lines, sf))
+        return out
+    o2, d2 = simcheck.sim_collect(rep, "C10", tier, rng, seed, kws, 160, 16000, oracle_props={"C10", "C02"}, custom_scripts=group_scripts,
                                   rule_extra=", tiny per-client max message sizes so that every tick's mutations are split, with mutate messages dropped and reordered, and a relationship registered with "
                                   "sync_related_entities set / replaced / cleared between entities (related entities must share a mutate message)")
     if o2 and not oracle_fail:
